@@ -8,7 +8,7 @@ THEOREMS = {"C04": ["apply_patch_replay", "apply_patch_verdicts", "verdicts_are_
             "C05": ["reverse_hunk_involutive", "conforming_reverse", "apply_reverse"],
             "C06": ["reapply_ignored", "reapply_reversed", "force_no_guess"], "C15": ["dry_run_pure"], "C16": ["section_ops_allowed", "finalize_ops_allowed", "finalize_removals_allowed", "exec_op_frame"],
             "C17": ["write_now_sets_mode", "refusal_writes_only_rejects"],
-            "C18": ["backup_name_spec", "backup_holds_original", "backup_only_once"]}
+            "C18": ["backup_name_spec", "make_backup_for_shape", "ensure_extends", "backup_holds_original", "backup_only_once"]}
 
 HUNK_RE = re.compile(r"^Hunk #(\d+) (succeeded|FAILED|skipped) at (-?\d+)(?: with fuzz (\d+))?(?: \(offset (-?\d+) lines?\))?\.", re.M)
 SUMMARY_RE = re.compile(r"^(\d+) out of (\d+) hunks? (FAILED|ignored)", re.M)
@@ -106,6 +106,9 @@ def allowed_paths(s):
     outs = []
     for x in s["secs"]:
         tg = [x["path"], x["newpath"]]
+        if o.get("file"):
+            # the file named on the command line is the selected target; the names in the headers are bystanders
+            tg = [o["file"]] + ([x["newpath"]] if x["kind"] in ("rename", "copy") else [])
         if o.get("o"):
             tg = [o["o"]]
         outs += tg
@@ -150,7 +153,8 @@ def judge_c16(s, r):
 
 
 # ---------------------------------------------------------------- C17
-MODES = [0o644, 0o600, 0o444, 0o400, 0o755, 0o555, 0o640, 0o664, 0o604, 0o750, 0o440, 0o711]
+MODES = [0o644, 0o600, 0o444, 0o400, 0o755, 0o555, 0o640, 0o664, 0o604, 0o750, 0o440, 0o711,
+         0o4755, 0o2755, 0o1644, 0o4555, 0o6711]       # set-uid, set-gid, sticky: permission bits too
 
 
 def judge_c17(s, r):
@@ -245,15 +249,16 @@ def scenarios_for(prop, rng, n):
             kinds = ["change", "change", "mode", "rename", "copy"]
             o.update(rng.choice([{}, {"b": 1}, {"ro": "ignore"}, {"ro": "fail"}, {"ro": "warn"}]))
         if prop == "C18":
-            o = dict(rng.choice([{}, {"b": 1}, {"b": 1, "z": ".bak"}, {"b": 1, "B": "pre."}, {"b": 1, "B": "pre.", "z": ".post"}, {"posix": 1}, {"bim": 0},
+            o = dict(rng.choice([{}, {"b": 1}, {"b": 1, "z": ".bak"}, {"b": 1, "B": "pre."}, {"b": 1, "B": "pre.", "z": ".post"}, {"b": 1, "B": "old/"}, {"posix": 1}, {"bim": 0},
                                  {"bim": 1, "posix": 1}, {"b": 1, "posix": 1}, {"b": 1, "bim": 0}, {"N": 1}, {"N": 1, "b": 1}, {"f": 1}]))
             kinds = ["change", "change", "change", "add", "delete"]
         if prop == "C15":
             o["dry"] = 1
             kinds = ["change", "change", "add", "delete", "rename", "copy", "mode"]
+            if rng.random() < 0.25:
+                o.update(rng.choice([{"o": "outfile"}, {"o": "newdir/outfile"}, {"r": "rejects.txt"}, {"o": "outfile", "b": 1}]))
+                kinds = ["change", "change", "delete"]
         s = varied_scenario(rng, opts=o, kinds=kinds)
-        if "B" in s["opts"] and any("/" in x["path"] or "/" in x["newpath"] for x in s["secs"]):
-            del s["opts"]["B"]      # prefix + "dir/f" names a directory that does not exist: not a backup name one would ask for
         if prop in ("C17", "C15"):
             for x in s["secs"]:
                 if x["path"] in s["tree"] and rng.random() < 0.7:
@@ -477,6 +482,18 @@ def run(prop, tier, seed):
                 scns.append(add_bystanders(rng, s0))
             for _ in range(n // 6):
                 scns.append(add_bystanders(rng, scen.same_file_scenario(rng, opts=dict(rng.choice([{"b": 1}, {}])), git=rng.random() < 0.3)))
+            for _ in range(n // 5):
+                # the file to patch is named on the command line; a file with the name the headers carry stands by
+                kind = rng.choice(["change", "change", "rename", "delete", "copy"])
+                sec = scen.section(rng, rng.choice(["h", "hd/h"]), kind=kind, fmt=("git" if kind in ("rename", "copy") else rng.choice(["unified", "context", "git", "normal"])))
+                s0 = scen.base_scenario(rng, [sec], opts=dict(rng.choice([{}, {"b": 1}, {"f": 1}])))
+                content = s0["tree"][sec["path"]]
+                opnd = rng.choice(["tgt", "op/tgt"])
+                scen.add_parents(s0["tree"], opnd); s0["tree"][opnd] = content
+                if rng.random() < 0.5:
+                    s0["tree"][sec["path"]] = (content[0], content[1], b"bystander with the header name\n")
+                s0["opts"]["file"] = opnd
+                scns.append(add_bystanders(rng, s0))
             _, b2, m2 = l2_family(run_, exe, scns, judge_c16, cls=lambda s, r: "exit %d" % r["exit"])
             bad += b2; mism += m2
             # no temporary may stay behind even when setting one up fails half way (fdopen's fcntl) or the run is killed there
